@@ -6,6 +6,9 @@
     synth/syntax/grammars/tagged_det_grammar.py:158-210   ProbDetGrammar.init_sampling / sample_program
     synth/syntax/grammars/tagged_u_grammar.py:175-254     ProbUGrammar.init_sampling / sample_program
 
+  The model describes the code WITH the proposed fix C09-F2 applied (proposed_fixes/C09-F2.diff:
+  `avg = np.sum(weights) / n`, `proba[less] = weights[less] / avg`, private copy of the weights);
+  `buildOld` keeps the former `avg = 1.0 / n` for the finding theorem.
   Floats are modelled by exact rationals (`Rat`): the harness only compares tables exactly where
   the float computation is exact (dyadic weights, power-of-two totals) and within 1e-9 otherwise.
   numpy arrays are lists, `a[i] = v` is `List.set`, `a[i]` is `getD i 0` (indices are in range:
@@ -80,6 +83,13 @@ def buildLoop (ws : List Rat) : List Nat × List Nat × St :=
 /-- `PythonSampler.__init__` : weights ↦ (alias, proba) -/
 def build (ws : List Rat) : Tables :=
   let r := buildLoop ws
+  ⟨r.2.2.alias, drain r.2.1 (drain r.1 r.2.2.proba)⟩
+
+/-- the tables before fix C09-F2: `avg = 1.0 / n` (and `proba[less] = weights[less] * n`) whatever
+    the total of the weights -/
+def buildOld (ws : List Rat) : Tables :=
+  let avg : Rat := 1 / (ws.length : Rat)
+  let r := pairLoop avg ws.length (initSmall avg ws) (initLarge avg ws) (initSt ws)
   ⟨r.2.2.alias, drain r.2.1 (drain r.1 r.2.2.proba)⟩
 
 /-- `col = int(self.rng.uniform(0, self.n))` for the value `x ≥ 0` returned by the generator -/
